@@ -2,12 +2,29 @@
     pub fn one(ring: &ConstLargeDivisor) -> Self
     /*@
         requires ring_full(ring),
-        ensures red_ok(&ret, ring), val(ret.0@) == ring_p(ring), resid(&ret, ring) == 1,
+            // a ConstLargeDivisor is only built from a Buffer (div_const.rs:145): its length is within Buffer::MAX_CAPACITY
+            ring.normalized_divisor@.len() <= (usize::MAX as int) / (WORD_BITS as int),
+        ensures red_ok(&ret, ring), crate::val(ret.0@) == ring_p(ring),
+            resid(&ret, ring) == 1,          // C13: the unit of the ring (pow(0))
     @*/
     {
         let modulus = &ring.normalized_divisor;
         let mut buf = Buffer::allocate_exact(modulus.len());
+        /*@ proof { lemma_sh_one_shl_w(ring.shift); } @*/
         buf.push(1 << ring.shift);
         buf.push_zeros(modulus.len() - 1);
+        /*@ proof {
+            let s = buf@;
+            let p = ring_p(ring);
+            assert(s[0] as int == p);
+            lemma_val_prefix(s, 1);
+            lemma_valn1(s);
+            lemma_mp_modulus_ge2(ring);
+            lemma_exact_div(ring_M(ring), p);
+            let m = crate::modulus(ring);
+            assert(m * p >= 2 * p) by (nonlinear_arith) requires m >= 2, p >= 1;
+            lemma_div_of_multiple(1, p);
+            assert(1 * p == p);
+        } @*/
         Self(buf.into_boxed_slice())
     }
